@@ -31,6 +31,64 @@ DELIMS = {'list': ('[', ']'), 'tuple': ('(', ')'), 'set': ('{', '}')}
 NEED = ['int', 'float', 'bool', 'type(None)', 'type(...)', 'str', 'bytes', 'list', 'tuple', 'set', 'frozenset', 'dict']
 
 
+def total_order_only(repo, rep, rule):
+    """The elements of a user's container are ordered only through the always-sortable key: ``sorted`` / ``min`` / ``max`` / ``.sort``
+    over data drawn from the value being printed raise TypeError as soon as two elements cannot be compared (str and int, None and a
+    number, two classes); the printer fails, the value degrades to its plain repr - which for nested nan / inf / user values does
+    not evaluate back.  Attribute names (``value.__dict__``) are strings and compare.  Returns the number of ordering sites."""
+    from engine import facts as F, roles
+    from .c19 import _derives
+    from engine.astutil import names_in
+    sortable = roles.name(repo, 'sortable_cls')
+    n = 0
+    fns = {}
+    for r in F.registry(repo):
+        if r.fn is not None and '.extras' not in r.module.name:
+            fns[r.fn.key] = r.fn
+    for f in sorted(fns.values(), key=lambda x: x.key):
+        if not f.params:
+            continue
+        tainted = {f.params[0]}
+        for _ in range(6):
+            before = set(tainted)
+            for s_ in ast.walk(f.node):
+                if isinstance(s_, ast.Assign) and _derives(s_.value, tainted):
+                    for t in s_.targets:
+                        tainted |= names_in(t)
+                elif isinstance(s_, (ast.For, ast.comprehension)) and _derives(s_.iter, tainted):
+                    tainted |= names_in(s_.target)
+            if tainted == before:
+                break
+        for c in ast.walk(f.node):
+            if not isinstance(c, ast.Call):
+                continue
+            cn = call_name(c)
+            target = None
+            if cn in ('sorted', 'min', 'max') and len(c.args) == 1:
+                target = c.args[0]
+            elif isinstance(c.func, ast.Attribute) and c.func.attr == 'sort' and not c.args:
+                target = c.func.value
+            if target is None or not _derives(target, tainted):
+                continue
+            # names of attributes are strings: totally ordered
+            if src(target).endswith('.__dict__') or src(target).endswith('.__dict__.keys()') or src(target).endswith('.__slots__'):
+                continue
+            n += 1
+            key = next((k.value for k in c.keywords if k.arg == 'key'), None)
+            ok = key is not None and src(key).split('.')[-1] == sortable
+            rep.check(ok, rule, '%s:orders-user-elements:%s' % (f.qualname, src(target)[:30]), '%s:%d' % (f.module.relpath, c.lineno),
+                      'ordered through the always-sortable key',
+                      '%s orders %s with %s(...)%s: elements that cannot be compared with < (str and int, None and a number) make it raise '
+                      'TypeError, the whole value degrades to its plain repr (not evaluable for nested inf / nan / user values)'
+                      % (f.key, src(target), cn.split('.')[-1], '' if key is None else ' and key=%s' % src(key)), nontrivial=True)
+    # the sort key itself never raises: its fallback orders by type name / is total (C01.e above checks the natural order comes first)
+    n += 1
+    srt = repo.module('prettyprinter').classes.get(sortable)
+    rep.check(srt is not None and '__lt__' in srt.methods, rule, 'sort-key-class-defines-order', srt.where if srt else 'prettyprinter/prettyprinter.py',
+              'the always-sortable key defines <', 'the always-sortable key class %s does not define __lt__' % sortable)
+    return n
+
+
 def run(repo, rep):
     rep.explanation = ('C01.a delimiter table, C01.b one-tuple comma, C01.c empty containers and exact native types, C01.d special '
                        'floats, C01.e key order, C01.f constant atoms, C01.g registration completeness.')
@@ -356,6 +414,7 @@ def run(repo, rep):
     rep.check(ok, 'C01.e', '_AlwaysSortable.__lt__:natural-order-first', srt.where if srt else m.relpath,
               'comparable keys are ordered by their own <', '_AlwaysSortable.__lt__ does not return self.value < other.value first', nontrivial=True)
     rep.floor('C01.e', n, 2)
+    rep.floor('C01.k', total_order_only(repo, rep, 'C01.k'), 2)
 
     # ---------------------------------------------------------------- C01.h string syntax (home: C02)
     from .common import import_instances
